@@ -2,13 +2,30 @@
    non-vacuity examples. *)
 From Coq Require Import List ZArith Bool Lia.
 From TskVerif Require Import Base.Common C02.Fl C02.Model C02.Spec C02.Sound C02.NoOOB
-  C02.SweepComplete C02.Refuted.
+  C02.SweepComplete C02.Refuted C02.Termination.
 Import ListNotations.
 Open Scope Z_scope.
 
 (* (a) memory safety of the gate's logic, for the code as it is and for the repaired variant *)
 Lemma check_no_oob_top : forall t, WF t -> check t <> OOB /\ check_repaired t <> OOB.
 Proof. intros t W. split; apply check_no_oob_lemma; assumption. Qed.
+
+(* (a') termination: with a finite sequence length the gate (the code as it is) never exhausts
+   the model's loop fuel, whatever the cell values — in particular the main loop of
+   check_tree_integrity runs at most 2*num_edges+2 times on any input.  No WF needed. *)
+Lemma check_terminates_top : forall t Lz, seqlen t = Fin Lz -> check t <> Fuel.
+Proof. intros t Lz HL. apply (check_terminates_lemma code_variant t Lz HL). Qed.
+
+(* the repaired gate is total on reachable tables: it returns a tree count or a library error *)
+Lemma check_repaired_total_top : forall t, WF t ->
+  (exists n, check_repaired t = Ok n) \/ (exists c, check_repaired t = Err c).
+Proof.
+  intros t W. assert (NO := check_no_oob_lemma repaired t W).
+  assert (NF : check_repaired t <> Fuel).
+  { unfold check_repaired. destruct (seqlen t) eqn:E; try (unfold check_integrity; rewrite E; discriminate).
+    apply (check_terminates_lemma repaired t z E). }
+  unfold check_repaired in *. destruct (check_integrity repaired opts_trees t); eauto; congruence.
+Qed.
 
 (* (c) completeness, for both variants.  The bound excludes TSK_ERR_TREE_OVERFLOW (more than
    2^31-2 trees), which needs about 2^30 edges. *)
